@@ -23,12 +23,13 @@ SVC_NAMES = ["ssh", "http", "postgresql", "bash", "smb", "rdp", "ftp", "powershe
 OWNERS = ["User1", "User2", "admin", "www", "", "ünï"]
 DATA_IDS = ["DatabaseData", "DataFromServer1", "secret", "", "Data x", "üñí"]
 
-PRIVATE_BASES = ["192.168.%d.0/24", "10.%d.0.0/24", "172.%d.8.0/24", "192.168.%d.0/26", "10.0.%d.0/25"]
+PRIVATE_BASES = ["192.168.%d.0/24", "10.%d.0.0/24", "172.%d.8.0/24", "192.168.%d.0/26", "10.0.%d.0/25", "192.168.%d.0/23", "10.%d.0.0/16"]
 PUBLIC_NETS = ["213.47.23.192/26", "8.8.8.0/24", "130.149.7.0/28", "100.64.3.0/24"]
 
 
-def gen_scenario(rng: random.Random, max_nodes=6):
-    """Returns (objects, description-dict). All address choices come from rng."""
+def gen_scenario(rng: random.Random, max_nodes=6, one_spelling=False):
+    """Returns the list of scenario objects. All address choices come from rng.
+    one_spelling: every network is written in its canonical form only (no host bits)."""
     nnets = rng.choice([1, 2, 2, 3, 3, 4])
     nets = []
     used = set()
@@ -44,7 +45,10 @@ def gen_scenario(rng: random.Random, max_nodes=6):
         if cidr in used:
             continue
         used.add(cidr)
-        nets.append(ipaddress.IPv4Network(cidr))
+        n_ = ipaddress.IPv4Network(cidr, strict=False)
+        if one_spelling and any(n_.overlaps(o) for o in nets):
+            continue
+        nets.append(n_)
     nets.sort(key=lambda n: rng.random())
     taken = set()
 
@@ -66,7 +70,7 @@ def gen_scenario(rng: random.Random, max_nodes=6):
             ip = fresh_ip(net)
             if ip is not None:
                 # sometimes write the network with host bits set, like the tiny scenario does
-                netstr = f"{ip}/{net.prefixlen}" if rng.random() < 0.15 else str(net)
+                netstr = f"{ip}/{net.prefixlen}" if (rng.random() < 0.15 and not one_spelling) else str(net)
                 ifs.append(cc.InterfaceConfig(cc.IPAddress(str(ip)), cc.IPNetwork(netstr)))
         if not ifs:
             continue
